@@ -457,7 +457,129 @@ def _exec_qubit_handle(ctx, qc):
     return res
 
 
+def host_histories(max_live, depth, alphabet=("new", "gate", "meas", "measin", "free", "flush"), max_flush=2):
+    """every sequence of host operations of exactly `depth` steps (or that cannot be continued) that keeps at most `max_live` qubits
+    alive: create a qubit, a gate on the newest handle, destructive / in-place measurement and free of any live handle (named by its
+    position among the live ones), flush (at most `max_flush`, never two in a row).  A final flush is added by the runner."""
+    out = []
+
+    def rec(seq, live, nflush, since_flush):
+        if len(seq) == depth:
+            out.append(tuple(seq))
+            return
+        grown = False
+        for op in alphabet:
+            if op == "new":
+                if live < max_live:
+                    grown = True
+                    rec(seq + [("new",)], live + 1, nflush, since_flush + 1)
+            elif op == "flush":
+                if nflush < max_flush and since_flush > 0:
+                    grown = True
+                    rec(seq + [("flush",)], live, nflush + 1, 0)
+            elif op == "gate":
+                if live > 0 and (not seq or seq[-1][0] != "gate"):
+                    grown = True
+                    rec(seq + [("gate", live - 1)], live, nflush, since_flush + 1)
+            else:
+                for k in range(live):
+                    if op == "measin" and seq and seq[-1] == ("measin", k):
+                        continue
+                    grown = True
+                    rec(seq + [(op, k)], live - (0 if op == "measin" else 1), nflush, since_flush + 1)
+        if not grown and seq:
+            out.append(tuple(seq))
+    rec([], 0, 0, 0)
+    return sorted(set(out))
+
+
+def _run_history(ctx, job):
+    """one host history against one hardware setting -> None, or (construct, what went wrong)"""
+    from .. import session as S
+    (hardware, qubits, nv_compiler), seq = job
+    setting = f"{hardware} hardware, {qubits} qubits" + (", NV transpiler" if nv_compiler else "")
+    w = S.HostWorld(ctx, hardware, qubits, nv_compiler)
+    handles = []
+    done = []
+
+    def tell():
+        return f"[{setting}] " + ", ".join(o_[0] + (f"({o_[1]})" if len(o_) > 1 else "") for o_ in done)
+
+    def after_flush():
+        for cls_name, r_ in w.deliver():
+            if r_[0] != "ok":
+                return ("every-subroutine-executes-without-a-fault", f"{tell()}: the controller handles {cls_name} with {r_[1]}: {str(r_[2])[:160]!r}")
+        host, ctrl = w.host_active_ids(), w.allocated(0)
+        if len(set(host)) != len(host):
+            return ("live-handles-have-distinct-ids", f"{tell()}: the live handles of the host have the virtual ids {host}")
+        if host != ctrl:
+            return ("after-a-flush-host-and-controller-agree", f"{tell()}: after the flush the host's active qubits are {host}, the controller has {ctrl} allocated")
+        return None
+
+    for op in tuple(seq) + (("flush",),):
+        done.append(op)
+        if op[0] == "new":
+            r_ = w.new_qubit()
+            if r_[0] == "ok":
+                handles.append(r_[1])
+        elif op[0] == "flush":
+            r_ = w.call(w.conn, "flush")
+            if r_[0] == "ok":
+                bad = after_flush()
+                if bad is not None:
+                    return bad
+        else:
+            q = handles[op[1]]
+            if op[0] == "gate":
+                r_ = w.call(q, "H")
+            elif op[0] == "meas":
+                r_ = w.call(q, "measure")
+                handles.pop(op[1])
+            elif op[0] == "measin":
+                r_ = w.call(q, "measure", inplace=True)
+            else:
+                r_ = w.call(q, "free")
+                handles.pop(op[1])
+        if r_[0] != "ok":
+            return ("the-host-program-is-accepted", f"{tell()}: the SDK refuses the last operation with {r_[1] if len(r_) > 1 else r_}: {str(r_[2])[:160] if len(r_) > 2 else ''!r} (at most {len(handles)} qubits are alive)")
+    return None
+
+
+def check_histories(ctx, rule="C09.H", thorough=False):
+    """C09 as stated, on bounded host programs: the repository's SDK (DebugConnection, Builder, memory manager, Qubit) and the
+    repository's controller (QNodeController, Executor) run in the checker's interpreter, connected by the repository's own message
+    serialisation.  Every sequence of qubit creation, gate, in-place / destructive measurement, free and flush up to the bound, that keeps
+    at most the configured number of qubits alive (one fewer on NV hardware), is run on generic hardware, on NV hardware and on NV hardware
+    with the NV transpiler.  Required: the SDK accepts the program; the controller executes every subroutine without a fault; the live
+    handles have distinct ids; after every flush the host's active qubits are exactly the controller's allocated virtual qubits."""
+    from .. import session as S
+    settings = [(("generic", 2, False), 2), (("nv", 3, False), 2), (("nv", 3, True), 2)]
+    depth = 4
+    jobs = []
+    for cfg, live in settings:
+        for seq in host_histories(live, depth):
+            jobs.append((cfg, seq))
+    if thorough:
+        for cfg, live in ((("generic", 3, False), 3), (("nv", 4, True), 3)):
+            for seq in host_histories(live, 5, ("new", "meas", "measin", "free", "flush")):
+                jobs.append((cfg, seq))
+    bad = {}
+    try:
+        for job, res in zip(jobs, S.parallel_map(ctx, _run_history, jobs, jobs=14)):
+            if res is not None:
+                bad.setdefault(res[0], res[1])
+    except AnalysisError as ex_:
+        ctx.error(rule, f"the host / controller pair cannot be executed: {ex_}")
+        return
+    ctx.anchor(rule, "host histories executed against the controller", len(jobs), 300)
+    repo = ctx.repo
+    b = repo.get_class(B, "Builder")
+    for key in ("the-host-program-is-accepted", "every-subroutine-executes-without-a-fault", "live-handles-have-distinct-ids", "after-a-flush-host-and-controller-agree"):
+        ctx.check(rule, key, key not in bad, bad.get(key, ""), b.loc(b.node) if hasattr(b, "node") else None, sample={"histories": len(jobs)})
+
+
 def run(ctx):
+    check_histories(ctx)
     check_qfree_pairing(ctx)
     check_new_handle_ids(ctx)
     check_handles(ctx)
